@@ -1813,7 +1813,8 @@ def tt_loglikelihood(
 
     assert isinstance(Model, ttb.ktensor), "Model must be a ktensor"
 
-    Model.normalize(weight_factor=0, normtype=1)
+    # Evaluate on a normalized copy: computing the likelihood must not change the model
+    Model = Model.copy().normalize(weight_factor=0, normtype=1)
     if isinstance(Data, ttb.sptensor):
         xsubs = Data.subs
         A = Model.factor_matrices[0][xsubs[:, 0], :]
